@@ -613,6 +613,8 @@ func makeArrayPair(rng *fw.Rand, n int, ctor int) (*gozxing.BitArray, []bool) {
 func c16Array(r *fw.Rec, n, ctor int) {
 	rng := r.Rng
 	a, m := makeArrayPair(rng, n, ctor)
+	var keptArg *gozxing.BitArray
+	var keptArgModel []bool
 	trace := []string{fmt.Sprintf("ctor%d(%d)", ctor, n)}
 	fail := func(msg string) {
 		op := trace[len(trace)-1]
@@ -724,6 +726,9 @@ func c16Array(r *fw.Rec, n, ctor int) {
 				a.AppendBitArray(o)
 				m = append(m, om...)
 				trace = append(trace, fmt.Sprintf("AppendBitArray(size %d)", on))
+				// the argument stays the caller's own array: what is done to the receiver later
+				// does not show in it (checked after every later step)
+				keptArg, keptArgModel = o, om
 			}
 		case 8:
 			octor := rng.Intn(2)
@@ -771,7 +776,28 @@ func c16Array(r *fw.Rec, n, ctor int) {
 			fail(s)
 			return
 		}
+		if keptArg != nil {
+			bad := keptArg.GetSize() != len(keptArgModel)
+			for i := 0; !bad && i < len(keptArgModel); i++ {
+				bad = keptArg.Get(i) != keptArgModel[i]
+			}
+			if bad {
+				trace = append(trace, "(argument of an earlier AppendBitArray re-read)")
+				fail("an array that was the ARGUMENT of an earlier AppendBitArray changed through later operations on the receiver")
+				return
+			}
+		}
 		r.Evals(1)
+	}
+	if keptArg != nil {
+		// and it is still a whole array of its own: a bit appended to it is the bit appended
+		keptArg.AppendBit(false)
+		if keptArg.GetSize() != len(keptArgModel)+1 || keptArg.Get(len(keptArgModel)) {
+			trace = append(trace, "(argument of an earlier AppendBitArray).AppendBit(false)")
+			fail("AppendBit(false) on an array that was the argument of an earlier AppendBitArray reads back as set")
+			return
+		}
+		r.Tally("arguments_of_append_rechecked_after_later_operations")
 	}
 	r.Nontrivial(fmt.Sprintf("a/%d/%d/%s", n, ctor, strings.Join(trace, ",")))
 	if n == 64 || n == 0 {
@@ -850,6 +876,7 @@ func c16(c *fw.Ctx) {
 	c.Floor("array_sequences", int64(402*aseq*9/10))
 	c.Floor("setrow_with_wider_row", 500)
 	c.Floor("array_appended_to_itself", 200)
+	c.Floor("arguments_of_append_rechecked_after_later_operations", 2000)
 	c.Floor("appendbits_all_zero", 500)
 	c.Floor("parsed_with_multi_character_line_breaks", 300)
 }
